@@ -4,4 +4,4 @@
 d=$(realpath $1); w=/tmp/dbg-$2
 git -C /repo worktree add -q --detach $w HEAD || exit 3
 git -C $w apply $d/patch.diff || { echo "PATCH DOES NOT APPLY"; exit 3; }
-echo $w
+cp /repo/Cargo.lock $w/Cargo.lock 2>/dev/null; echo $w
